@@ -37,6 +37,12 @@ var arrOps = []string{
 	`y := x[0:2]; y[1] = v`,
 	`y := x[:]; y[i] = v`,
 	`y := append(x, v); y[0] = v; y[1] = v`,
+	`y := x[i:j]; y = append(y, v)`,
+	`y := x[i:i]; y = append(y, v, v)`,
+	`y := append(x[i:j], v); y[0] = v`,
+	`y := x[:0]; append(y, v)`,
+	`y := x[1:1]; append(y, v); splice(y, 0, 0, v)`,
+	`y := x[i:j]; splice(y, 0, 1, v, v)`,
 	`y := x + immutable([v]); y[0] = v; y[1] = v`,
 	`y := x + immutable([]); y[i] = v`,
 	`y := copy(x); y[0] = v; y[2][0] = v`,
@@ -208,13 +214,18 @@ func C09_Ops() {
 // the argument (which stays mutable), and everything reachable from the
 // result is immutable; shared sub-structures stay shared.
 func C09_Freeze() {
-	shape := vf.Choice("shape", 5)
+	shape := vf.Choice("shape", 9)
 	srcs := []string{
 		`o := [a, [b, 1], {k: [a]}]`,
 		`o := {p: a, q: [b, {r: 1}]}`,
 		`sh := [a, b]; o := [sh, sh, {k: sh}]`,
 		`o := immutable([a, [b, 1]])`,
 		`o := [a, immutable({k: [b]})]`,
+		// shallow-immutable containers with mutable children, reached more than once
+		`sh := immutable([[a, b]]); o := [sh, sh]`,
+		`sh := immutable({k: [a]}); o := {p: sh, q: sh, r: [sh]}`,
+		`sh := immutable([{k: b}]); o := immutable([sh, [sh], {k: sh}])`,
+		`inner := [a]; sh := immutable([inner, inner]); o := [sh, inner, sh]`,
 	}
 	s := tengo.NewScript([]byte(srcs[shape] + `
 before := copy(o)
